@@ -1,7 +1,9 @@
 import LenaModel.Model.NArr
 /-! # C12 model — histogram and graph arithmetic, scaling and conversions
 
-Transcription (of the code as it is now in /repo, after the `fix:` commits 7a20429 and e1eb9d9) of
+Transcription (of the code as it is now in /repo, after the `fix:` commits 7a20429, e1eb9d9; for 8d715e5 — one axis
+nested in a list, `[[x0, …]]`, for which `mkHist` here answers `unmodelled` — see `mkHistU`, `addU`, `toCsvHistU` in
+`Model/C12Ext.lean`) of
 
 * `_check_edges_increasing_1d`, `check_edges_increasing` (hist_functions.py:71-102),
   `histogram.__init__` (histogram.py:47-164), `init_bins` (hist_functions.py:394-435, via `NArr.full`),
